@@ -13,6 +13,10 @@ or at the latest after `d` consecutive accesses at which a mandatory one was pen
 Two transports: `s` — 0x6040/0x6041/0x6060/0x6061 by (real, expedited) SDO frames; `p` — controlword
 and mode in RPDO1 (event driven), statusword and mode display in the periodic TPDO1 (the wait for its
 reception is replaced, on the PdoMap instance, by "the drive emits its next TPDO now").
+
+Unreliable link (`mhist`): `Net.link` is set per step - `d` drops every frame (the SDO client, whose
+RESPONSE_TIMEOUT is 0 on this node because answers arrive inside `send_message`, raises SdoCommunicationError at
+once; the wait for the TPDO returns None), `x` answers the upload of 0x6502 with abort 0x06020000.
 """
 import struct
 
@@ -24,7 +28,7 @@ from canopen.profiles import p402
 ID = "C19"
 PROOF_MODULES = ["CanopenProofs.C19", "CanopenProofs.Lemmas.P402", "CanopenProofs.Lemmas.P402Graph",
                  "CanopenProofs.Lemmas.P402Safe", "CanopenProofs.Lemmas.P402ProgS",
-                 "CanopenProofs.Lemmas.P402ProgP"]
+                 "CanopenProofs.Lemmas.P402ProgP", "CanopenProofs.C19Mode"]
 GENERATED = ["P402Tables"]
 THEOREMS = [
     "Canopen.C19.decode_exact",
@@ -37,6 +41,12 @@ THEOREMS = [
     "Canopen.C19.commandable_matches_spec",
     "Canopen.C19.op_mode_refused",
     "Canopen.C19.op_mode_code",
+    "Canopen.C19.mode_cache_faithful",
+    "Canopen.C19.mode_history_reachable",
+    "Canopen.C19.mode_history_never_wrong",
+    "Canopen.C19.mode_failure_reported",
+    "Canopen.C19.cache_unset_while_failing",
+    "Canopen.C19.mode_history_outputs",
 ]
 FINGERPRINT = [
     "canopen.profiles.p402:State402",
@@ -71,7 +81,10 @@ ASSUMPTIONS = [
 ]
 RULE = ("ops `sw n t` (decode statusword n over transport t), `goto start rst target transport auto12 d "
         "extra F S schedule` (one assignment against the reference drive), `hist start rst transport auto12 extra F S "
-        "items` (several assignments on one node, item 8 = a fault occurs in between), `mode name mask transport delay M`; "
+        "items` (several assignments on one node, item 8 = a fault occurs in between), `mode name mask transport delay M`, "
+        "`mhist transport mask steps` (mode steps on one node object: a<i> assignment / q<i> is_op_mode_supported / r0 read, "
+        "each with the link u = reachable, d = no response, x = 0x6502 aborted; failures before the first successful "
+        "look-up included); "
         "all 65536 statuswords; all 8x8 pairs x both transports x both reset-bit values x schedules with <= 2 "
         "firings among the first accesses, extra status bits seeded; all modes x all masks of the ten mode "
         "bits plus seeded 32-bit masks; non-trivial = a state other than UNKNOWN decoded / at least one "
@@ -110,6 +123,7 @@ class Drive:
         self.mode_delay = 0      # reads of 0x6061 that still show the old mode after a write
         self.pending_mode = None
         self.supported = 0
+        self.support_reads = 0   # answered uploads of 0x6502
 
     # -- power state machine
     def _enter(self, st):
@@ -233,18 +247,27 @@ class Net(canopen.Network):
         self.drive, self.nid = drive, node_id
         self.ts = 0.0
 
+    link = "u"          # "u" every request served; "d" nothing gets through; "x" 0x6502 does not exist
+
     def send_message(self, can_id, data, remote=False):
         data = bytes(data)
         drv = self.drive
+        if self.link == "d":
+            return                                                 # frame lost: no answer, nothing received
         if can_id == 0x600 + self.nid:
             cmd, idx, sub = struct.unpack_from("<BHB", data)
+            if cmd == 0x80:
+                return                                             # the client gave up: nothing to answer
             if cmd == 0x40:                                        # upload initiate
                 if idx == 0x6041:
                     drv.access()
                     resp = struct.pack("<BHBHH", 0x4B, idx, sub, drv.statusword(), 0)
                 elif idx == 0x6061:
                     resp = struct.pack("<BHBbBH", 0x4F, idx, sub, drv.read_mode_display(), 0, 0)
+                elif idx == 0x6502 and self.link == "x":
+                    resp = struct.pack("<BHBL", 0x80, idx, sub, 0x06020000)
                 elif idx == 0x6502:
+                    drv.support_reads += 1
                     resp = struct.pack("<BHBL", 0x43, idx, sub, drv.supported)
                 else:
                     resp = struct.pack("<BHBL", 0x80, idx, sub, 0x06020000)
@@ -299,6 +322,8 @@ def make_node(drive, transport, F=8, S=4, M=5):
     node.TIMEOUT_SWITCH_STATE_FINAL = F
     node.TIMEOUT_SWITCH_STATE_SINGLE = S
     node.TIMEOUT_SWITCH_OP_MODE = M
+    # answers arrive inside send_message; a request that is not answered then never will be: no real waiting
+    node.sdo.RESPONSE_TIMEOUT = 0
     if transport == "p":
         rp, tp = node.rpdo[1], node.tpdo[1]
         rp.cob_id, tp.cob_id = 0x200 + nid, 0x180 + nid
@@ -311,6 +336,8 @@ def make_node(drive, transport, F=8, S=4, M=5):
         node.setup_pdos(upload=False)
         # "wait for the next TPDO" = the drive emits its periodic TPDO now (no real waiting)
         def wait(timeout=10, _tp=tp, _net=net):
+            if net.link == "d":
+                return None                            # no TPDO comes: time-out of wait_for_reception
             if net.tpdo_mode_read:
                 net.push_tpdo(mode_read=True)
             else:
@@ -330,6 +357,7 @@ def make_node(drive, transport, F=8, S=4, M=5):
         tp.add_variable(0x6041)
         tp.add_variable(0x6061)
         node.setup_pdos(upload=False)
+        tp.wait_for_reception = lambda timeout=10: None    # a switched-off TPDO never comes: no real waiting for it
     elif transport != "s":
         raise ValueError("transport")
     return node, net, clock
@@ -451,7 +479,58 @@ def _run_impl(op):
         except Exception as e:
             res += "+" + type(e).__name__
         return f"{res} wr={wr} rd={rd} carried={nl(net.rpdo_modes)}"
+    if a[0] == "mhist":
+        tr, mask = a[1], int(a[2])
+        drv = Drive(SOD, 0, 0, 0, [], NEVER)
+        drv.supported = mask
+        node, net, clock = make_node(drv, tr)
+        net.rpdo_is_mode = True
+        if tr == "p":
+            net.tpdo_mode_read = True
+        results = []
+        for kind, mi, link in parse_msteps(a[3]):
+            net.link = link
+            before = len(drv.mode_writes)
+            try:
+                if kind == "a":
+                    node.op_mode = MODES[mi]
+                    res = "ok"
+                elif kind == "q":
+                    res = {True: "yes", False: "no"}.get(node.is_op_mode_supported(MODES[mi]), "other-value")
+                else:
+                    name = node.op_mode
+                    res = f"m{MODES.index(name)}" if name in MODES else "other-name"
+            except TypeError:
+                res = "refused"
+            except KeyError:
+                res = "refused" if kind != "r" else "key"
+            except canopen.SdoCommunicationError:
+                res = "comm"
+            except canopen.SdoAbortedError:
+                res = "abort"
+            except RuntimeError:
+                res = "notpdo"
+            except Exception as e:
+                res = "other-" + type(e).__name__
+            results.append(f"{res}:{nl(drv.mode_writes[before:])}")
+        net.link = "u"
+        return "/".join(results) or "-"
     return "bad-op"
+
+
+def parse_msteps(s):
+    """`a3u,q5d,r0x` -> [(kind, mode index, link)]"""
+    steps = []
+    for tok in ([] if s == "-" else s.split(",")):
+        kind, mi, link = tok[0], int(tok[1:-1]), tok[-1]
+        if kind not in "aqr" or link not in "udx" or not 0 <= mi < len(MODES):
+            raise ValueError(f"bad step {tok!r}")
+        steps.append((kind, mi, link))
+    return steps
+
+
+def fmt_msteps(steps):
+    return ",".join(f"{k}{mi}{l}" for k, mi, l in steps) or "-"
 
 
 # ---- independent oracle -----------------------------------------------------------------------------
@@ -542,17 +621,13 @@ def oracle(op, out):
             return (f"modef: after mode {name} was {'set' if res == 'ok' else 'refused'} an RPDO sent for the "
                     f"controlword carried mode code(s) {carried}, the mode in force is {want}")
         return None
+    if a[0] == "mhist":
+        return oracle_mhist(a, out)
     if a[0] == "mode":
         name, mask = MODES[int(a[1])], int(a[2])
         res, kv = parse_out(out)
         wr = unnl(kv["wr"])
-        if name == "NO MODE":
-            adv, code = True, 0
-        elif name in MODE_BIT_CODE:
-            bit, code = MODE_BIT_CODE[name]
-            adv = bool(mask >> bit & 1)
-        else:
-            adv, code = False, None
+        adv, code = mode_truth(name, mask)
         if not adv:
             if wr or res != "refused":
                 return f"mode {name} is not advertised by 0x{mask:X} but result {res}, written {wr}"
@@ -562,8 +637,93 @@ def oracle(op, out):
     return None
 
 
+def mode_truth(name, mask):
+    """CiA 402: (does a drive whose 0x6502 reads `mask` advertise the mode, its 0x6060 code)"""
+    if name == "NO MODE":
+        return True, 0
+    if name in MODE_BIT_CODE:
+        bit, code = MODE_BIT_CODE[name]
+        return bool(mask >> bit & 1), code
+    return False, None
+
+
+LINK_TEXT = {"u": "drive reachable", "d": "drive unreachable (no response)", "x": "0x6502 answered with an abort"}
+KIND_TEXT = {"a": "op_mode = {!r}", "q": "is_op_mode_supported({!r})", "r": "read of op_mode"}
+
+
+def oracle_mhist(a, out):
+    """Every step is judged by what the DRIVE advertises (its 0x6502 value `mask`, whether or not it could be read
+    at that moment) and by what reached the drive; nothing here knows about a cache."""
+    mask, steps = int(a[2]), parse_msteps(a[3])
+    results = [] if out == "-" else out.split("/")
+    if len(results) != len(steps):
+        return f"mode history {a[3]}: {len(steps)} steps, {len(results)} results"
+    shown = 0                         # the drive displays the last code it received (0 at power-on)
+    code_name = {0: "NO MODE", **{c: n for n, (_, c) in MODE_BIT_CODE.items()}}
+    for n, ((kind, mi, link), r) in enumerate(zip(steps, results)):
+        res, _, wr = r.rpartition(":")
+        wr = unnl(wr)
+        name = MODES[mi]
+        adv, code = mode_truth(name, mask)
+        known = name == "NO MODE" or name in MODE_BIT_CODE
+        where = (f"mode history {a[3]} on a drive with 0x6502 = 0x{mask:X}, step #{n + 1} "
+                 f"({KIND_TEXT[kind].format(name)}, {LINK_TEXT[link]})")
+        if res.startswith("other"):
+            return f"{where}: raised/returned {res}"
+        if wr and (kind != "a" or link == "d"):
+            return f"{where}: {wr} written to 0x6060 by a step that cannot write"
+        if kind == "a":
+            if not adv:
+                if wr:
+                    return f"{where}: the mode is not advertised but {wr} was written to 0x6060"
+                if link == "u" and res != "refused":
+                    return f"{where}: the mode is not advertised, result {res} instead of a refusal"
+                if link == "x" and res not in ("refused", "abort"):
+                    return f"{where}: the mode is not advertised, result {res}"
+            else:
+                if res == "refused":
+                    return (f"{where}: the drive advertises the mode (CiA 402 code {code}) but the assignment was "
+                            f"refused" + ("" if all(l == "u" for _, _, l in steps[:n + 1]) else
+                                          " - a failed access must not turn into a refusal"))
+                if link == "u" and (res != "ok" or wr != [code]):
+                    return f"{where}: advertised mode, result {res}, written {wr}, CiA 402 code {code}"
+                if link == "x" and not ((res == "ok" and wr == [code]) or (res == "abort" and not wr)):
+                    return f"{where}: advertised mode, result {res}, written {wr}, CiA 402 code {code}"
+                if link == "d" and res not in ("ok", "comm", "notpdo"):
+                    return f"{where}: advertised mode, result {res}"
+            if wr:
+                shown = wr[-1]
+        elif kind == "q":
+            if res == "yes" and not adv:
+                return f"{where}: the mode is not advertised but reported as supported"
+            if res == "no" and adv:
+                return (f"{where}: the drive advertises the mode but it is reported as unsupported"
+                        + ("" if all(l == "u" for _, _, l in steps[:n + 1]) else
+                           " - a failed access must not turn into a refusal"))
+            if res == "refused" and known:
+                return f"{where}: advertised-or-not, the name is a CiA 402 mode but the call raised KeyError/TypeError"
+            if link == "u" and res not in ("yes", "no", "refused"):
+                return f"{where}: advertised-or-not, no answer from a reachable drive: {res}"
+            if res in ("notpdo", "key"):
+                return f"{where}: advertised-or-not, result {res}"
+        else:
+            if res.startswith("m"):
+                if MODES[int(res[1:])] != code_name.get(shown):
+                    return (f"{where}: read {MODES[int(res[1:])]!r}, the drive displays code {shown} "
+                            f"({code_name.get(shown)})")
+            elif link != "d" or res not in ("comm", "notpdo"):
+                return f"{where}: read ended as {res}, the drive displays code {shown} ({code_name.get(shown)})"
+    return None
+
+
 def signature(op, what):
     a = op.split(" ")
+    if a[0] == "mhist":
+        if what.rsplit("): ", 1)[-1].startswith("read "):
+            return "mhist:read"
+        if "advertised-or-not" in what or "cannot write" in what or "raised/returned" in what or "results" in what:
+            return "mhist:other"
+        return "mhist:" + ("not-advertised" if "not advertised" in what else "advertised")
     if a[0] == "goto":
         if "raised 'illegal'" in what:
             return "goto:illegal"
@@ -588,6 +748,8 @@ def nontrivial(op, out):
         return out != "U"
     if a[0] in ("goto", "hist"):
         return " cw=-" not in out
+    if a[0] == "mhist":
+        return any(not r.endswith(":-") for r in out.split("/") if r != "-")     # a mode reached the drive
     return " wr=-" not in out
 
 
@@ -599,11 +761,28 @@ def classify(op, out):
         return f"goto:{a[4]}:{out.split(' ')[0]}"
     if a[0] == "hist":
         return f"hist:{a[3]}:" + ("ok" if set(out.split(" ")[0].split("/")) <= {"ok", "refused", "-"} else "failed")
+    if a[0] == "mhist":
+        steps = parse_msteps(a[3])
+        first = next((l for k, _, l in steps if k != "r"), "u")      # link at the first supported-modes look-up
+        later = "fail" if any(l != "u" for _, _, l in steps[1:]) else "clean"
+        return f"mhist:{a[1]}:first-{first}:{later}"
     return f"mode:{a[3]}:{out.split(' ')[0]}"
 
 
 def shrink_candidates(op):
     a = op.split(" ")
+    if a[0] == "mhist":
+        steps = parse_msteps(a[3])
+        for i in range(len(steps)):
+            yield " ".join(a[:3] + [fmt_msteps(steps[:i] + steps[i + 1:])])
+        for i, (k, mi, l) in enumerate(steps):
+            if l != "u":
+                yield " ".join(a[:3] + [fmt_msteps(steps[:i] + [(k, mi, "u")] + steps[i + 1:])])
+        mask = int(a[2])
+        for b in range(32):
+            if mask >> b & 1:
+                yield " ".join(a[:2] + [str(mask & ~(1 << b))] + a[3:])
+        return
     if a[0] == "hist":
         items = unnl(a[8])
         for i in range(len(items)):
@@ -715,6 +894,37 @@ def gen_ops(tier, rng):
         for m in (0, 0x3EF, 0xFFFFFFFF, rng.getrandbits(10), rng.getrandbits(10)):
             for tr in "sp":
                 yield f"modef {mi} {m} {tr} 0 5"
+    # -- histories of mode steps on one node object over an unreliable link: the supported-modes look-up (first
+    #    use of 0x6502) fails - drive unreachable / object missing - for chosen steps, the very first included
+    for op in gen_mhist(quick, rng):
+        yield op
+
+
+def gen_mhist(quick, rng):
+    full = 0x3EF
+    for tr in "sp":
+        for mi in range(len(MODES)):
+            bit = MODE_BIT_CODE.get(MODES[mi], (None,))[0]
+            masks = [full, 0] if bit is None else [full, 1 << bit, full & ~(1 << bit)]
+            for mask in masks:
+                for link in "dx":
+                    for k in "aq":
+                        # the first look-up fails, then the drive is there: assign, ask, read; then lost again
+                        yield f"mhist {tr} {mask} {k}{mi}{link},a{mi}u,q{mi}u,r0u,a{mi}{link},r0{link}"
+                # two failures of different kinds before the first success; success first, failures later
+                yield f"mhist {tr} {mask} q{mi}d,a{mi}x,q{mi}u,a{mi}u,r0u"
+                yield f"mhist {tr} {mask} a{mi}u,q{mi}d,a{(mi + 1) % len(MODES)}x,r0d,a{mi}d,r0u"
+    yield "mhist d 37 a3d,q3x,a3u,r0u,a4u,r0d"
+    yield "mhist s 0 -"
+    for _ in range(1500 if quick else 25000):
+        tr = rng.choice("ssppd")
+        mask = rng.choice((rng.getrandbits(10), rng.getrandbits(10), rng.getrandbits(32), full, 0))
+        weights = rng.choice(("uuudx", "udx", "ddxu", "uuuuuud"))
+        steps = []
+        for _ in range(rng.randrange(1, 9)):
+            k = rng.choice("aaaqqr")
+            steps.append((k, 0 if k == "r" else rng.randrange(len(MODES)), rng.choice(weights)))
+        yield f"mhist {tr} {mask} {fmt_msteps(steps)}"
 
 
 CORPUS = [
@@ -729,6 +939,11 @@ CORPUS = [
     "goto 5 1 1 s 0 0 0 400 30 -",
     "goto 5 1 4 p 0 0 0 400 30 -",
     "hist 5 0 s 0 0 500 40 1,8,1",
+    # the first supported-modes look-up meets a drive that does not answer / has no 0x6502; once the drive is there
+    # an advertised mode is written with its code, an unadvertised one refused (nothing may be remembered from
+    # the failed look-up)
+    "mhist s 37 a3d,a3u,r0u,a4u",
+    "mhist p 37 q3x,q3u,a3u,r0u",
 ]
 
 LEVEL_TEXT = ("Lean 4 theorems over the generated 402 tables: every statusword decodes to exactly the CiA 402 state "
@@ -738,7 +953,10 @@ LEVEL_TEXT = ("Lean 4 theorems over the generated 402 tables: every statusword d
               "closed in-kernel + induction over the history); progress from EVERY start configuration (FAULT with any "
               "last controlword included) within 256(d+1) steps under at most d stalls (ranking checked in-kernel); uncommandable "
               "targets refused without any controlword; operation modes refused / written with the CiA 402 code "
-              "for every 0x6502 mask")
+              "for every 0x6502 mask; over ALL histories of mode steps on one node object with the drive unreachable or "
+              "0x6502 aborted at any steps (the first look-up included): the remembered supported-modes value is unset or "
+              "the advertised one, so a reachable drive gets every advertised mode written with its code and every other "
+              "one refused, and a failed look-up is never turned into a refusal")
 LEVEL_NOTE = ("trusted: Lean kernel + propext/Classical.choice/Quot.sound; the CiA 402 drive specification "
               "(Spec/Drive402.lean, Python reference drive); real time-outs are abstracted (tick counter in the "
               "correspondence, arbitrary choice in the safety theorem); the correspondence is as strong as its generator")
